@@ -367,3 +367,226 @@ Proof.
          [ eapply keepx_trans; [apply keep_keepx|exact K]; keep_x | split; [exact R|neq_res]] end.
   all: left; eexists; (split; [apply keep_keepx; keep_x|split; [norep2; reflexivity|neq_res]]).
 Qed.
+
+(* ------------------------------------------------------------------ Lock: building blocks *)
+Lemma process_data_nodata s k r c b : c_data c = None -> process_data s k r c b = (s, []).
+Proof. unfold process_data. intros ->. reflexivity. Qed.
+
+Lemma find_locked_in s id items : forall r, find_locked s items id = Some r -> In r items.
+Proof.
+  induction items as [|x rest IH]; cbn; intros r H; [discriminate|].
+  destruct (_ && _); [inv H; auto|right; auto].
+Qed.
+
+Lemma get_locked_lock_href s m id r : get_locked_lock s m id = Some r -> href_m m r.
+Proof.
+  unfold get_locked_lock. destruct (m_cur m) as [c|] eqn:Ec; [|discriminate].
+  destruct (_ =? id); [intros H; inv H; left; auto|].
+  destruct (m_locks m) as [q|] eqn:Eq; [|discriminate]. intros H. right. exists q. split; auto.
+  unfold hq_getlock in H. unfold hrefs_q. destruct (find_locked s (hq_fast q) id) as [x|] eqn:Ef.
+  - inv H. apply in_app_iff. left. eapply find_locked_in; eauto.
+  - destruct (hq_scale q) as [[items mp]|]; [|discriminate]. apply in_app_iff. right. apply in_app_iff. right.
+    apply aget_In in H. apply in_map_iff. exists (id, r). auto.
+Qed.
+
+Lemma free_lock_absent s r : aget (store (free_lock s r)) r = None.
+Proof.
+  unfold free_lock. destruct (aget (store s) r) eqn:E; auto.
+  rewrite store_updm. cbn [store]. change (aget (adel (store s) r) r = None). apply aget_adel_same.
+Qed.
+
+Lemma tr_free g A bv n s r :
+  tr g A bv n s -> tr g A (fun r' => if r' =? r then None else bv r') n (free_lock s r).
+Proof.
+  intros T. destruct (tr_keep _ _ _ _ _ _ (free_lock_keep s r) T) as [v h m]. split; auto.
+  intros r' l' H. destruct (r' =? r) eqn:E.
+  - apply N.eqb_eq in E. subst. rewrite free_lock_absent in H. discriminate.
+  - auto.
+Qed.
+
+Lemma tr_minus_keep s r V n s' :
+  tr idg (href s) (fun r' => if r' =? r then None else ovr (base s) r V r') n s' -> next s <= n -> keep s s'.
+Proof.
+  intros [v h m] Hn. split; auto; [|lia].
+  intros r' l' H. destruct (v _ _ H) as (v0 & H0 & E0). unfold ovr in H0. destruct (r' =? r); [discriminate|].
+  unfold base in H0. destruct (aget (store s) r') as [l|]; [|discriminate]. inv H0. exists l. auto.
+Qed.
+
+Lemma new_free_keep s0 k conn c' s1 r X s' :
+  new_lock s0 k conn c' = (s1, r) -> keep s1 X -> keep (free_lock X r) s' -> keep s0 s'.
+Proof.
+  intros Hn K1 K2. destruct (new_lock_tr _ _ _ _ _ _ Hn) as (_ & T & _).
+  eapply tr_minus_keep with (n := next s0 + 1); [|lia].
+  eapply tr_keep; [exact K2|]. apply tr_free. eapply tr_keep; [exact K1|exact T].
+Qed.
+
+Lemma chg1_pre s s0 s' r V : keep s s0 -> chg1 s0 s' r V -> chg1 s s' r V.
+Proof.
+  intros [v h n] [v' h' n']. split; [| |lia].
+  - intros r' l' H. specialize (v' _ _ H). destruct (r' =? r); auto.
+    destruct v' as (l0 & H0 & E0). destruct (v _ _ H0) as (l1 & H1 & E1). exists l1. unfold idg in E1. split; congruence.
+  - intros x Hx. destruct (h' _ Hx); auto.
+Qed.
+
+Lemma new_hold_chg s0 k conn c' s1 r f X Y aev s' :
+  new_lock s0 k conn c' = (s1, r) ->
+  (forall m x, href_m (f m) x -> href_m m x) ->
+  keep (updm (add_lock s1 k r) k f) X -> add_expried X k r = (Y, aev) -> keep Y s' ->
+  r = next s0 /\ chg1 s0 s' r (fun v => v = (c', conn, true, false)) /\ rinfos aev = [].
+Proof.
+  intros Hn Hf K1 He K2. destruct (new_lock_tr _ _ _ _ _ _ Hn) as (Hr & T & P & _).
+  split; auto.
+  assert (Hb : ovr (base s0) r (c', conn, true, true) r = Some (c', conn, true, true))
+    by (unfold ovr; rewrite N.eqb_refl; auto).
+  assert (T1 := add_lock_tr _ _ _ _ _ k r _ T Hb ltac:(intros Habs; exfalso; apply P; auto)).
+  assert (T2 : tr idg (addA (href s0) r) (ovr (base s0) r (c', conn, true, true)) (next s0 + 1) X).
+  { eapply tr_keep; [exact K1|]. eapply tr_keep; [apply keep_updm; exact Hf|exact T1]. }
+  destruct (add_expried_tr _ _ _ _ _ _ _ _ _ He T2) as [T3 R]. split; [|apply rinfos_noreply; auto].
+  eapply chg1_weaken; [|eapply tr_chg1; [eapply tr_keep; [exact K2|exact T3]| | |lia]].
+  - intros v ->. unfold at_ref. rewrite N.eqb_refl. reflexivity.
+  - at_ref_off.
+  - intros x [->|Hx]; auto.
+Qed.
+
+Lemma new_wait_chg s0 k conn c' s1 r s' :
+  new_lock s0 k conn c' = (s1, r) -> keep (add_timeout (add_wait_lock s1 k r) r) s' ->
+  r = next s0 /\ chg1 s0 s' r (fun v => v = (c', conn, false, true)) /\ (forall x, href s' x -> href s0 x).
+Proof.
+  intros Hn K. destruct (new_lock_tr _ _ _ _ _ _ Hn) as (Hr & T & P & _). split; auto.
+  assert (T1 : tr (at_ref idg r (set_to false)) (href s0) (ovr (base s0) r (c', conn, true, true)) (next s0 + 1) s').
+  { eapply tr_keep; [exact K|]. apply add_timeout_tr. eapply tr_keep; [apply add_wait_lock_keep|exact T]. }
+  split; [|apply (tr_h _ _ _ _ _ T1)].
+  eapply chg1_weaken; [|eapply tr_chg1; [exact T1| | |lia]].
+  - intros v ->. unfold at_ref. rewrite N.eqb_refl. reflexivity.
+  - at_ref_off.
+  - auto.
+Qed.
+
+Lemma update_and_rearm_tr g A bv n s k r c s' ev v0 :
+  update_and_rearm s k r c = (s', ev) -> tr g A bv n s -> bv r = Some v0 ->
+  (aget (store s) r = None -> g r v0 = view_of dummy_lock) ->
+  exists fv, tr (at_ref g r fv) A bv n s' /\ rinfos ev = []
+             /\ (forall v, v_cmd (fv v) = c /\ v_conn (fv v) = v_conn v /\ v_to (fv v) = v_to v).
+Proof.
+  unfold update_and_rearm. intros H T Hb Hd.
+  assert (T1 := update_locked_lock_tr _ _ _ _ _ k r c _ T Hb Hd).
+  destruct (l_long (getl s r)).
+  - destruct (negb (has (c_eflag c) EF_MILLISECOND)).
+    + destruct (negb _).
+      * brk. match goal with HE : add_expried _ _ _ = _ |- _ =>
+          eapply add_expried_tr in HE; [destruct HE as [T2 R2]|eapply tr_keep; [|exact T1]; keep_x] end.
+        exists (fun v => set_ex false (set_cmd c v)). split; [|split; [apply rinfos_noreply; auto|intros v; cbn; auto]].
+        eapply tr_ext; [|eapply tr_keep; [|exact T2]; keep_x].
+        intros r' v. unfold at_ref. destruct (r' =? r); reflexivity.
+      * inv H. exists (set_cmd c). split; [auto|split; [reflexivity|intros v; cbn; auto]].
+    + inv H. exists (set_cmd c). split; [auto|split; [reflexivity|intros v; cbn; auto]].
+  - inv H. exists (set_cmd c). split; [auto|split; [reflexivity|intros v; cbn; auto]].
+Qed.
+
+Lemma update_chg s X k r c1 conn Y aev s' :
+  keep s X -> (present s r -> present X r) ->
+  update_and_rearm X k r c1 = (Y, aev) -> keep (updl Y r (fun l => l <| l_conn := conn |>)) s' ->
+  chg1 s s' r (fun v => v_cmd v = c1 /\ v_conn v = conn /\ v_to v = l_timeouted (getl s r)) /\ rinfos aev = [].
+Proof.
+  intros K1 P Hu K2.
+  assert (T0 := tr_keep _ _ _ _ _ _ K1 (tr_refl_ovr s r)).
+  assert (Hb : ovr (base s) r (view_of (getl s r)) r = Some (view_of (getl s r)))
+    by (unfold ovr; rewrite N.eqb_refl; auto).
+  destruct (update_and_rearm_tr _ _ _ _ _ _ _ _ _ _ _ Hu T0 Hb) as (fv & T1 & R & F).
+  { intros Habs. unfold idg. unfold getl. destruct (aget (store s) r) eqn:E; auto.
+    exfalso. apply P; auto. unfold present. congruence. }
+  split; auto.
+  assert (T2 : tr (at_ref (at_ref idg r fv) r (set_conn conn)) (href s) (ovr (base s) r (view_of (getl s r))) (next s) s').
+  { eapply tr_keep; [exact K2|]. apply tr_updl; [intros; reflexivity|exact T1]. }
+  eapply chg1_weaken; [|eapply tr_chg1; [exact T2| | |lia]].
+  - intros v ->. unfold at_ref. rewrite N.eqb_refl. unfold idg. destruct (F (view_of (getl s r))) as (F1 & F2 & F3).
+    cbn. split; [|split]; auto.
+  - at_ref_off.
+  - auto.
+Qed.
+
+(* ------------------------------------------------------------------ Lock *)
+Definition lock_sum (s : db) (conn : N) (c : cmd) (s' : db) (ev : list event) (w : option wake) : Prop :=
+  (exists res, keep s s' /\ rinfos ev = [(conn, c_req c, res)] /\ res <> R_EXPRIED)
+  \/ (exists r c', r = next s /\ c_req c' = c_req c /\ core_cmd c'
+        /\ chg1 s s' r (fun v => v = (c', conn, true, false)) /\ rinfos ev = [(conn, c_req c, R_SUCCED)])
+  \/ (exists r c', r = next s /\ c_req c' = c_req c /\ core_cmd c'
+        /\ chg1 s s' r (fun v => v = (c', conn, false, true)) /\ (forall x, href s' x -> href s x)
+        /\ rinfos ev = [] /\ w = None)
+  \/ (exists r c' res, href s r /\ c_req c' = c_req c /\ core_cmd c'
+        /\ chg1 s s' r (fun v => v_cmd v = c' /\ v_conn v = conn /\ v_to v = l_timeouted (getl s r))
+        /\ rinfos ev = [(conn, c_req c, res)] /\ (res = R_SUCCED \/ res = R_LOCKED_ERROR)).
+
+Lemma update_and_rearm_norep s k r c s' ev : update_and_rearm s k r c = (s', ev) -> rinfos ev = [].
+Proof.
+  intros H.
+  assert (Hb : ovr (base s) r (view_of (getl s r)) r = Some (view_of (getl s r)))
+    by (unfold ovr; rewrite N.eqb_refl; auto).
+  destruct (update_and_rearm_tr _ _ _ _ _ _ _ _ _ _ _ H (tr_refl_ovr s r) Hb) as (fv & _ & R & _); auto.
+  intros Habs. unfold idg, getl. rewrite Habs. reflexivity.
+Qed.
+
+Lemma update_chg1 s X k r c1 conn Y aev s' :
+  keep s X -> (present s r -> present X r) ->
+  update_and_rearm X k r c1 = (Y, aev) -> keep (updl Y r (fun l => l <| l_conn := conn |>)) s' ->
+  chg1 s s' r (fun v => v_cmd v = c1 /\ v_conn v = conn /\ v_to v = l_timeouted (getl s r)).
+Proof. intros. eapply update_chg; eauto. Qed.
+
+Lemma lock_step_sum s conn c s' ev w : lock_step s conn c = (s', ev, w) -> core_cmd c -> lock_sum s conn c s' ev w.
+Proof.
+  intros H Hcore. assert (Hcore0 := Hcore). destruct Hcore as (Hack & Hms & Hems & Hdata).
+  unfold lock_step in H. cbv beta zeta in H.
+  set (k := c_key c) in *.
+  match type of H with context [if has (c_flag c) LOCK_FLAG_SHOW then ?a else c] =>
+    set (c1 := if has (c_flag c) LOCK_FLAG_SHOW then a else c) in H end.
+  assert (Hc1 : c_req c1 = c_req c /\ c_tflag c1 = c_tflag c /\ c_eflag c1 = c_eflag c /\ c_data c1 = c_data c
+                /\ c_key c1 = c_key c).
+  { subst c1. destruct (has (c_flag c) LOCK_FLAG_SHOW); cbn; auto. }
+  clearbody c1. destruct Hc1 as (Hreq1 & Htf1 & Hef1 & Hd1 & Hk1).
+  assert (Hcore1 : core_cmd c1) by (unfold core_cmd; rewrite Htf1, Hef1, Hd1; auto).
+  destruct (aget (mgrs s) k) as [m0|] eqn:Hmgr.
+  all: cbv iota in H.
+  all: brk.
+  all: repeat match goal with HP : process_data _ _ _ _ _ = _ |- _ =>
+         rewrite process_data_nodata in HP by congruence; injs end.
+  all: try congruence.
+  all: try solve [exfalso; rewrite ?Htf1 in *; rewrite ?Hef1 in *;
+         repeat match goal with HB : _ && _ = true |- _ => apply andb_true_iff in HB; destruct HB end; congruence].
+  (* A: no record *)
+  all: try solve [left; eexists; split; [keep_x|split; [norep2; cbn; rewrite ?Hreq1; reflexivity|neq_res]]].
+  (* A': record created and freed *)
+  all: try solve [left; eexists; split;
+         [eapply keep_trans; [|eapply new_free_keep; [eassumption| |keep_x]; keep_x]; keep_x
+         |split; [norep2; cbn; rewrite ?Hreq1; reflexivity|neq_res]]].
+  (* B2: update / re-lock *)
+  all: try solve [
+    match goal with HG : get_locked_lock _ _ _ = Some ?r, HU : update_and_rearm _ _ ?r ?c0 = (_, ?aev) |- _ =>
+      right; right; right; exists r, c0; eexists;
+      split; [apply (getm_href _ k); eapply get_locked_lock_href; eassumption|];
+      split; [exact Hreq1|]; split; [exact Hcore1|];
+      assert (HR := update_and_rearm_norep _ _ _ _ _ _ HU);
+      split; [eapply update_chg1; [ | |eassumption| ]; [keep_x | intros; repeat first [apply present_updl | apply present_updm]; assumption | keep_x]
+             |split; [norep2; rewrite HR; cbn; rewrite ?Hreq1; reflexivity|auto]]
+    end].
+  (* B1: new hold *)
+  all: try solve [
+    assert (Hf : forall (m : mgr) (x : ref), href_m ((fun m => m <| m_locked := add32 (m_locked m) 1 |>) m) x -> href_m m x)
+      by (intros ? ? HH; exact HH);
+    match goal with Hn : new_lock ?S0 ?k' ?conn' ?c' = (?s1, ?r), HE : add_expried ?X _ ?r = (?Y, ?aev) |- lock_sum _ _ _ ?S' _ _ =>
+      assert (K1 : keep (updm (add_lock s1 k' r) k' (fun m => m <| m_locked := add32 (m_locked m) 1 |>)) X) by apply keep_refl;
+      assert (K2 : keep Y S') by keep_x;
+      destruct (new_hold_chg S0 k' conn' c' s1 r _ X Y aev S' Hn Hf K1 HE K2) as (Hr & Hc & Hrn);
+      right; left; exists r, c'; split; [rewrite Hr; reflexivity|];
+      split; [first [exact Hreq1|reflexivity]|]; split; [assumption|];
+      split; [eapply chg1_pre; [|exact Hc]; keep_x|norep2; rewrite ?Hrn; cbn; rewrite ?Hreq1; reflexivity]
+    end].
+  (* C: queued *)
+  all: try solve [
+    match goal with Hn : new_lock ?S0 ?k' ?conn' ?c' = (?s1, ?r) |- lock_sum _ _ _ ?S' _ _ =>
+      destruct (new_wait_chg S0 k' conn' c' s1 r S' Hn ltac:(keep_x)) as (Hr & Hc & Hh);
+      right; right; left; exists r, c'; split; [rewrite Hr; reflexivity|];
+      split; [first [exact Hreq1|reflexivity]|]; split; [assumption|];
+      split; [eapply chg1_pre; [|exact Hc]; keep_x|];
+      split; [intros x Hx; apply Hh in Hx; revert Hx; apply keep_h; keep_x|split; reflexivity]
+    end].
+Qed.
